@@ -251,3 +251,20 @@ def field_bool_switches(fn, field):
             if not any(o[0] == sw for o in out):
                 out.append((sw, tt, ft))
     return out
+
+
+def view(P, f, keep=None):
+    """f with its local helper functions inlined (cached); `keep` = regex of callees the rule wants to keep as calls"""
+    from . import inline as I
+    cache = P.__dict__.setdefault("_views", {})
+    k = (f.key, keep)
+    if k not in cache:
+        cache[k] = I.inline(P, f, I.helper_like(P, keep))
+    return cache[k]
+
+
+def facts(fn):
+    from . import facts as FA
+    if getattr(fn, "_facts", None) is None:
+        fn._facts = FA.Facts(fn)
+    return fn._facts
